@@ -63,7 +63,11 @@ CELER_FUNCTION float GenerateCanonical32<float>::operator()(Generator& rng)
                   "Generator must return 32-bit sample");
 
     constexpr float norm = 2.32830643654e-10f;  // 1 / 2**32
-    return norm * rng();
+    // Samples within 2^7 of 2^32 round *up* when converted to float: clamp so
+    // that the result stays strictly below unity
+    constexpr float max_below_one = 0.99999994f;  // 1 - 2^-24
+    float const result = norm * rng();
+    return result < 1.0f ? result : max_below_one;
 }
 
 //---------------------------------------------------------------------------//
